@@ -168,7 +168,39 @@ func ContextCallSite(f *ssa.Function) ssa.CallInstruction {
 		}
 		found = cs
 	}
+	if found != nil {
+		return found
+	}
+	// ... or the single call inside the helpers the root operation reaches
+	// (a guard helper called by the permission helper the operation calls)
+	region := rootRegion()
+	for _, cs := range StaticCallSites(f) {
+		if !region[Outer(cs.Parent())] {
+			continue
+		}
+		if _, isCall := cs.(*ssa.Call); !isCall || found != nil {
+			return nil
+		}
+		found = cs
+	}
 	return found
+}
+
+var (
+	regionOf   *ssa.Function
+	regionFuns map[*ssa.Function]bool
+)
+
+// rootRegion: the functions InstrsDeep(ctxRoot) visits (cached per root).
+func rootRegion() map[*ssa.Function]bool {
+	if regionOf == ctxRoot && regionFuns != nil {
+		return regionFuns
+	}
+	regionOf, regionFuns = ctxRoot, map[*ssa.Function]bool{}
+	if ctxRoot != nil {
+		InstrsDeep(ctxRoot, func(g *ssa.Function, _ ssa.Instruction) { regionFuns[Outer(g)] = true })
+	}
+	return regionFuns
 }
 
 // OriginX is Origin extended through parameters of single-call-site helpers.
@@ -915,4 +947,128 @@ func ResolveWithin(root *ssa.Function, v ssa.Value) []ssa.Value {
 	}
 	res(v, 0)
 	return out
+}
+
+// TableColumn: v reads field F of the element of a full-range loop over a
+// local slice literal of structs (`for _, row := range []struct{...}{{..},..}`):
+// the values the literal gives that field, one per row, in row order.
+func TableColumn(v ssa.Value) (vals []ssa.Value, ok bool) {
+	fr, base, isF := LoadedField(v)
+	if !isF || base == nil {
+		return nil, false
+	}
+	in, isIn := Origin(v).(ssa.Instruction)
+	if !isIn || in.Parent() == nil {
+		return nil, false
+	}
+	for _, l := range RangeLoops(in.Parent()) {
+		if !l.ElemOf(base) {
+			continue
+		}
+		rows, isT := StructTable(l.Slice)
+		if !isT || len(rows) == 0 {
+			return nil, false
+		}
+		st, isSt := Deref(fr.Owner).Underlying().(*types.Struct)
+		if !isSt {
+			return nil, false
+		}
+		idx := -1
+		for i := 0; i < st.NumFields(); i++ {
+			if st.Field(i).Name() == fr.Name {
+				idx = i
+			}
+		}
+		if idx < 0 {
+			return nil, false
+		}
+		for _, row := range rows {
+			val, has := row[idx]
+			if !has {
+				return nil, false // zero value: not given explicitly
+			}
+			vals = append(vals, val)
+		}
+		return vals, true
+	}
+	return nil, false
+}
+
+// ErrorSource: when call invokes a helper whose error result is, on every
+// return, nil or the error of one and the same inner call, that inner call
+// (the helper's error IS that call's error); nil otherwise.
+func ErrorSource(call *ssa.Call) *ssa.Call {
+	h := Callee(&call.Call)
+	if h == nil || h.Blocks == nil || !IsHelper(call.Parent(), h) {
+		return nil
+	}
+	res := h.Signature.Results()
+	ei := -1
+	for i := 0; i < res.Len(); i++ {
+		if IsErrorType(res.At(i).Type()) {
+			ei = i
+		}
+	}
+	if ei < 0 {
+		return nil
+	}
+	var src *ssa.Call
+	for _, r := range Returns(h) {
+		rv := RetVals(r)
+		if ei >= len(rv) {
+			return nil
+		}
+		e := Origin(rv[ei])
+		if IsNilConst(e) {
+			continue
+		}
+		ic, _ := TupleCall(e)
+		if ic == nil || (src != nil && src != ic) {
+			return nil
+		}
+		src = ic
+	}
+	// (through instantiation wrappers and further forwarding helpers)
+	for i := 0; i < 3 && src != nil; i++ {
+		inner := errorSource1(src)
+		if inner == nil {
+			break
+		}
+		src = inner
+	}
+	return src
+}
+
+func errorSource1(call *ssa.Call) *ssa.Call {
+	h := Callee(&call.Call)
+	if h == nil || h.Blocks == nil || !IsHelper(call.Parent(), h) {
+		return nil
+	}
+	res := h.Signature.Results()
+	ei := -1
+	for i := 0; i < res.Len(); i++ {
+		if IsErrorType(res.At(i).Type()) {
+			ei = i
+		}
+	}
+	if ei < 0 {
+		return nil
+	}
+	var src *ssa.Call
+	for _, r := range Returns(h) {
+		rv := RetVals(r)
+		if ei >= len(rv) {
+			return nil
+		}
+		e := Origin(rv[ei])
+		if IsNilConst(e) {
+			continue
+		}
+		ic, _ := TupleCall(e)
+		if ic == nil || (src != nil && src != ic) {
+			return nil
+		}
+		src = ic
+	}
+	return src
 }
